@@ -201,6 +201,43 @@ def run_case(case, ctx):
 					raise Violation('revcomp_bytes', f'revcomp({y!r}) wrong', case)
 				classes.append('near_miss_byte')
 		return {'nontrivial': True, 'classes': classes}
+	if kind == 'threads':
+		# the same conversions called from several Python threads at once (worker threads of a pool): every call still
+		# returns its own answer
+		import threading, random as _random, sys as _sys
+		k = case['k']
+		T = case['nthreads']
+		bad = []
+
+		def work(t):
+			rnd = _random.Random(case['seed'] * 31 + t)
+			for _ in range(case['n']):
+				idx = rnd.randrange(4 ** k)
+				x = R.ref_kmer(idx, k)
+				try:
+					got = gk.index_to_kmer(idx, k)
+					if got != x:
+						bad.append(f'index_to_kmer({idx}, {k}) = {got!r}, expected {x!r}')
+						return
+					if gk.kmer_to_index(x) != idx or gk.kmer_to_index_rc(x) != R.ref_index(R.ref_revcomp(x)) or revcomp(x) != R.ref_revcomp(x):
+						bad.append(f'kmer_to_index / kmer_to_index_rc / revcomp of {x!r} wrong')
+						return
+				except Exception as e:   # noqa
+					bad.append(f'{type(e).__name__}: {e}')
+					return
+		old_si = _sys.getswitchinterval()
+		_sys.setswitchinterval(1e-5)
+		try:
+			ths = [threading.Thread(target=work, args=(t,)) for t in range(T)]
+			for th in ths:
+				th.start()
+			for th in ths:
+				th.join()
+		finally:
+			_sys.setswitchinterval(old_si)
+		if bad:
+			raise Violation('concurrent_callers', f'{T} Python threads converting {k}-mers at once: {bad[0]}', case)
+		return {'nontrivial': True, 'classes': ['concurrent_python_callers', f'k={k}' if k in (16, 17, 31, 32) else 'k:other']}
 	if kind == 'index':
 		k = case['k']
 		idx = case['index'] % (4 ** k)
@@ -309,4 +346,7 @@ def strategy(tier):
 	)
 	fresh = st.tuples(st.lists(call, min_size=1, max_size=4), st.sampled_from([[], ['-O'], [], ['-OO'], ['-X', 'dev']])).map(lambda t: {'kind': 'fresh_process', 'calls': t[0], 'flags': t[1]})
 	rare = st.sampled_from([False] * (170 if tier == 'quick' else 80) + [True] + [False] * (130 if tier == 'quick' else 70))     # sampled_from is close to uniform (integers() favours small values)
-	return rare.flatmap(lambda f: fresh if f else st.one_of(long_kmer, long_kmer, index, rc, too_long))
+	threads = st.builds(lambda k, t, sd: {'kind': 'threads', 'k': k, 'nthreads': t, 'seed': sd, 'n': 400 if tier == 'quick' else 3000},
+	                    st.sampled_from([1, 5, 11, 16, 17, 31, 32]), st.integers(2, 8), st.integers(0, 2 ** 20))
+	rare_t = st.sampled_from([False] * 60 + [True] + [False] * 60)
+	return rare.flatmap(lambda f: fresh if f else rare_t.flatmap(lambda g: threads if g else st.one_of(long_kmer, long_kmer, index, rc, too_long)))
